@@ -6,7 +6,8 @@ import MdkVerif.Model.Basic
   merge/clear_pending_commit; groups.rs), the epoch-snapshot manager as used by them, and restart.
 
   OpenMLS and the outer NIP-44 layer are symbolic (DESIGN §5.2/§5.3): an MLS state is the list of
-  commit events applied since the group was created (`path`), an exporter secret is identified by
+  commits applied since the group was created (`path`, by ciphertext identity: a re-wrapped copy of a
+  commit is the same commit), an exporter secret is identified by
   the path it was exported from, a ciphertext by the event number of its first publication.
 -/
 namespace MdkVerif.Client
@@ -155,7 +156,7 @@ def mergeCommit (maxPast : Nat) (g : GState) (e : Ev) : GState :=
   | .commit b swept =>
     let g1 := applyBody g b
     let g2 := { g1 with members := g1.members.filter (fun m => !(swept.contains m)) }
-    { g2 with path := g.path ++ [e.n], pending := none, props := [], past := ((g.path :: g.past).take maxPast) }
+    { g2 with path := g.path ++ [e.cipher], pending := none, props := [], past := ((g.path :: g.past).take maxPast) }
   | _ => g
 
 /-! ### the snapshot manager as process_commit uses it -/
@@ -303,7 +304,11 @@ def step1 (retry : Cl → Option (Cl × Res)) (nextEv : Nat) (c : Cl) (e : Ev) :
              let g2 := syncRec (ensureSecret g1)
              (setRec { c1 with g := g2 } e.n { state := 2, epoch := some (epochOf g2.path), hasGroup := true, mid := none }, .commit)
            | none => ownMessage c e)
-        else processCommit c e b swept
+        -- OpenMLS decrypts the commit first (consuming the sender's handshake-ratchet generation, which is
+        -- persisted at once); mdk snapshots only afterwards, so the snapshot already holds the consumption and
+        -- the same ciphertext can never be processed again after a rollback (SecretReuseError)
+        else if c.g.consumed.contains e.cipher then failUnprocessable c e
+        else processCommit { c with g := { c.g with consumed := e.cipher :: c.g.consumed } } e b swept
       | .leave =>
         if ee != cur then failUnprocessable c e
         else if e.sender == c.id then ownMessage c e
